@@ -15,10 +15,11 @@ def case(job):
     out = {"seed": seed, "version": version, "opts": opts, "problems": [], "ran": 0}
     try:
         nparams = r.randrange(0, 5)
-        kinds = [r.choice(["expr", "ref", "abi_u64", "abi_str", "abi_tuple"]) for _ in range(nparams)]
+        kinds = [r.choice(["expr", "ref", "abi_u64", "abi_str", "abi_tuple", "abi_named"]) for _ in range(nparams)]
         has_out = r.random() < 0.7
         recursive = r.random() < 0.3 and "ref" not in kinds
         ns = {"pt": pt, "abi": abi}
+        exec(compile("class NT(abi.NamedTuple):\n    a: abi.Field[abi.Uint8]\n    b: abi.Field[abi.String]\n", "<abisub-nt>", "exec", dont_inherit=True), ns)
         sig, stmts = [], []
         # python-side model of what the routine does: acc = sum of numeric params; each ref var += 10*(position+1)
         for i, k in enumerate(kinds):
@@ -30,6 +31,8 @@ def case(job):
                 sig.append(f"p{i}: abi.Uint64")
             elif k == "abi_str":
                 sig.append(f"p{i}: abi.String")
+            elif k == "abi_named":
+                sig.append(f"p{i}: NT")
             else:
                 sig.append(f"p{i}: abi.Tuple2[abi.Uint8, abi.String]")
         acc_terms = ["pt.Int(1)"]
@@ -46,12 +49,17 @@ def case(job):
             else:
                 acc_terms.append(f"pt.Len(p{i}.encode())")
         acc = "pt.Add(" + ", ".join(acc_terms) + ")" if len(acc_terms) > 1 else acc_terms[0]
-        local = "tmp = pt.ScratchVar(pt.TealType.uint64)"
+        # the routine's own temporary: a ScratchVar, or ABI values created inside the body (frame cells under frame pointers)
+        if r.random() < 0.5:
+            local, put, get = "tmp = pt.ScratchVar(pt.TealType.uint64)", (lambda e: f"tmp.store({e})"), "tmp.load()"
+        else:
+            local = "tmp = abi.Uint64()\n    tmp2 = abi.Uint64()"
+            put, get = (lambda e: f"tmp2.set({e}), tmp.set(tmp2.get())"), "tmp.get()"
         if has_out:
             sig.append("*, output: abi.Uint64")
-            body = f"    {local}\n    return pt.Seq({', '.join(stmts + [f'tmp.store({acc})', 'output.set(tmp.load())'])})\n"
+            body = f"    {local}\n    return pt.Seq({', '.join(stmts + [put(acc), f'output.set({get})'])})\n"
         else:
-            body = f"    {local}\n    return pt.Seq({', '.join(stmts + [f'tmp.store({acc})', 'pt.Log(pt.Itob(tmp.load()))'])})\n"
+            body = f"    {local}\n    return pt.Seq({', '.join(stmts + [put(acc), f'pt.Log(pt.Itob({get}))'])})\n"
         src = f"def sub({', '.join(sig)}):\n{body}"
         exec(compile(src, "<abisub>", "exec", dont_inherit=True), ns)
         fn = pt.ABIReturnSubroutine(ns["sub"])
@@ -76,6 +84,13 @@ def case(job):
                 pre.append(x.set(v))
                 args.append(x)
                 expect_acc += v
+            elif k == "abi_named":
+                s = "z" * r.randrange(0, 5)
+                a, b = abi.Uint8(), abi.String()
+                t = ns["NT"]()
+                pre += [a.set(9), b.set(s), t.set(a, b)]
+                args.append(t)
+                expect_acc += 1 + 2 + 2 + len(s)
             elif k == "abi_str":
                 s = "x" * r.randrange(0, 9)
                 x = abi.String()
